@@ -41,6 +41,19 @@ def setup(flavour, tier):
 # ------------------------------------------------------------------------------------------------ generation
 @st.composite
 def _layout_case(draw, cfg):
+    if draw(st.integers(0, 11)) == 0:
+        # a wide tuple or record (10-13 fields), bare or inside a list: field order beyond the ninth slot (added after the
+        # seeded change C16-a - tuple slots re-ordered as strings "0","1","10","11","2",... by from_buffers - was missed)
+        nf = draw(st.integers(10, 13))
+        istuple = draw(st.booleans())
+        kinds = [draw(st.sampled_from([M.prim("int64"), M.prim("float64"), M.prim("bool"), ["list", M.prim("int64")]])) for _ in range(nf)]
+        names = [str(i) for i in range(nf)] if istuple else ["f%d" % ((i * 7) % nf) for i in range(nf)]
+        T = ["record", [[n, k] for n, k in zip(names, kinds)], istuple, draw(st.sampled_from([None, None, "Wide"]))]
+        if draw(st.booleans()):
+            T = ["list", T]
+        wcfg = gen.Cfg(max_depth=3, complex_=False, max_len=3, max_list=2)
+        vals = draw(gen.values(T, wcfg))
+        return draw(gen.encode(T, vals, wcfg))
     T = draw(gen.types(cfg))
     vals = draw(gen.values(T, cfg))
     return draw(gen.encode(T, vals, cfg))
